@@ -255,6 +255,40 @@ def rule_R3(ctx):
     ctx.check(okrl, "R3", "http1:max_request_line_length", "Err when the request line exceeds the cap", "request line length cap no longer enforced", ctx.loc(rl))
 
 
+def rule_alloc_sizes(ctx):
+    """R3: explicit allocation sizes (with_capacity / reserve / resize / vec![x; n]) are constants, configured limits or lengths of data
+    that is already stored - never values taken from packet fields (sequence numbers, length fields), which a peer controls"""
+    P = ctx.program
+    n = 0
+    bad = []
+    for b in P.bodies.values():
+        if b.crate not in ("huginn_net_tcp", "huginn_net_http", "huginn_net_tls", "huginn_net", "huginn_net_db"):
+            continue
+        S = None
+        for blk, t in b.calls():
+            nm = callee_of(t)
+            if not nm.endswith(("::with_capacity", "::reserve", "::resize", "::from_elem", "::reserve_exact", "::resize_with")) or Q.in_tracing(t["span"]):
+                continue
+            S = S or T.Slicer(b, P)
+            a = Q.call_args(b, S, blk, t)
+            arg = a[1] if nm.endswith(("from_elem", "::reserve", "::resize", "::reserve_exact", "::resize_with")) and len(a) > 1 else a[-1]
+            n += 1
+            wire = []
+            for x in T.walk(T.strip(arg)):
+                if x[0] == "call":
+                    last = x[1].rsplit("::", 1)[-1]
+                    if last.startswith(("get_", "from_be_bytes", "from_le_bytes")) and last not in ("get",):
+                        wire.append(last)
+                if x[0] == "field" and isinstance(x[2], str) and x[2] in ("sequence", "length", "ack", "window", "stream_id", "value"):
+                    wire.append("." + x[2])
+            if wire:
+                bad.append((b, blk, sorted(set(wire))))
+    ctx.check(not bad, "R3", "allocation-sizes", "%d explicit allocation sizes: constants, configured limits, stored lengths" % n,
+              "%s sizes an allocation from %s: one segment with a far-ahead sequence number / a large declared length makes the analyzer request that much memory "
+              "although the connection holds a few bytes" % (T.short(bad[0][0].path) if bad else "", bad[0][2] if bad else ""), ctx.loc(bad[0][0], bad[0][1]) if bad else None)
+    ctx.floor("R3", "explicit allocation sizes", n, 6)
+
+
 def rule_args(ctx):
     """R1 (capacity routing): the configured limits reach the constructors under their own names"""
     from . import _argswap as AS
@@ -301,6 +335,7 @@ def rule_twins(ctx):
 
 
 def run(ctx):
+    rule_alloc_sizes(ctx)
     rule_twins(ctx)
     rule_shared(ctx)
     rule_tls_lifecycle(ctx)
